@@ -147,6 +147,7 @@ OVERRIDES = [
     # measured: > 6 GB and > 8 min each (css::Value == and drop glue inside OrderMap): thorough-tier attempts
     (r'^c13_valuemap_', dict(kind='attempt', tier='thorough', timeout=1800)),
     (r'^c28_zip_truncates', dict(bounded='three lists of at most 3 elements')),
+    (r'^c28_index_(in_map|whole_body)', dict(bounded='concrete two-entry map / three-element list at a mock value type with the constructors the closure uses')),
     (r'^c28_index_first_position', dict(bounded='lists of at most 4 elements; element type instantiated at u8')),
     (r'^c28_(join_concatenates|join_empty|append_adds|set_nth_changes)', dict(bounded='lists of 0-3 elements; element type instantiated at u8')),
     (r'^c28_separator_name|^c28_join_bracketed', dict(bounded='one representative value per kind')),
@@ -180,6 +181,7 @@ OVERRIDES = [
     (r'^c11_numeric_unitless_vs_percent', dict(bounded='concrete probe values')),
     (r'^c31_roundtrip_', dict(kind='attempt', tier='thorough', timeout=1800)),
     (r'^c31_rgba_to_hwba_in_range$', dict(kind='attempt', tier='thorough', timeout=1800)),
+    (r'^c31_hsla_to_hwba_probe$', dict(bounded='two concrete probe colors')),
     (r'^c31_hsla_to_hwba_in_range$', dict(kind='attempt', tier='thorough', timeout=1800)),  # measured: > 900 s
     (r'^c31_rgba_grey_to_hsla$', dict(kind='attempt', tier='thorough', timeout=1800)),
     (r'^c31_hwba_new_in_range$', dict(kind='attempt', tier='thorough', timeout=1800)),
@@ -188,6 +190,7 @@ OVERRIDES = [
     (r'^c12_color_hsla_cmp_antisymmetric$', dict(kind='attempt', tier='thorough', timeout=1800)),
     # the recursive selector structures (derived clone / == / drop through Box and Vec): > 15 min and > 5 GB each
     (r'^c22_(selector_|pseudo_is|pseudo_not|pseudo_other|compound_not_)', dict(kind='attempt', tier='thorough', timeout=2400)),
+    (r'^c12_color_hwba_hsla_eq_symmetric_probe$', dict(bounded='two concrete probe pairs')),
     (r'^c12_color_(hwba|rgba)_hsla_eq_symmetric$', dict(kind='attempt', tier='thorough', timeout=1800)),  # measured: > 900 s
     (r'^c12_number_trichotomy$', dict(kind='attempt', tier='thorough', timeout=1800)),
     (r'^c12_value_eq_color_color$', dict(kind='attempt', tier='thorough', timeout=1800)),
@@ -213,10 +216,27 @@ EXTRA_PROPS = [
 DEG_MOD = ('deg_mod call sites see kani_verif::deg_mod_by_contract instead of the body (CBMC 6.11 does not model f64 %); that contract is '
            'PROVED for the real body (text extracted each run) by c31_deg_mod_contract for all doubles, modulo one ASSUMED, UNCHECKED contract: '
            'f64 % 360.0 is IEEE fmod (exact; sign of the dividend; magnitude below 360; v itself when |v| < 360; v -/+ 360 when 360 <= |v| < 720)')
+SNIP = ('K-snippet: the verified text is a statement range cut out of /repo\'s current source on every run and wrapped in a function of its '
+        'free variables (hash and substitutions under coverage.extracted_snippets); dropped: the surrounding closure / match arm. ')
 FILE_ASSUMPTIONS = {
-    'colorfns.rs': [DEG_MOD],
+    'evalops.rs': [SNIP + 'Operand evaluation (do_evaluate) is replaced by a probe that returns a harness-chosen value and records the call; '
+                   'BinOp::eval\'s error type is instantiated at (); the map-literal arm is instantiated at a u8 key type with == modulo 4 and a local Error stand-in'],
+    'strfns.rs': [SNIP + 'Argument fetches (s.get / s.get_map) are replaced by parameters'],
+    'mathfns.rs': [SNIP + 'Argument fetches (s.get / s.get_map) are replaced by parameters'],
+    'transformfns.rs': [SNIP + 'Condition evaluation, body execution, the scope\'s format and the destination are replaced by probes that return harness-chosen values and count calls'],
+    'scopefns.rs': [SNIP + 'self.define / the scope\'s variable map / define_global / get_or_none / eval_body are replaced by recording probes; '
+                    'define_multi is instantiated at element type u8 (iter_items -> a Vec<u8>)'],
+    'formalargs.rs': [SNIP + 'css::CallArgs is instantiated at a two-variant value type V (bodies of its methods extracted as well, OrderMap real); the sub-scope is a recording binder; '
+                      'FormalArgs\' two fields are parameters with the default type instantiated at u8; ArgsError and Invalid are local stand-ins with the constructors the ranges use'],
+    'cssdata.rs': [SNIP + 'The (never constructed) error type of the result is ()'],
+    'colorfns.rs': [DEG_MOD, SNIP + 'Argument fetches are replaced by parameters'],
     'colors.rs': [DEG_MOD], 'convert.rs': [DEG_MOD], 'hsla.rs': [DEG_MOD], 'hwba.rs': [DEG_MOD],
-    'list.rs': ['std::fmt::format stubbed to return an empty String in c28_index_of (error TEXT unchecked, error PRESENCE checked)'],
+    'list.rs': ['std::fmt::format stubbed to return an empty String in c28_index_of (error TEXT unchecked, error PRESENCE checked)',
+                SNIP + 'join / append / set-nth / index are instantiated at element type u8 (get_list -> destructuring of the harness list type, Value::List -> its constructor, '
+                'list.index\'s result wrapping -> Option<usize>); argument fetches are parameters'],
+    'unitset.rs': [SNIP + 'UnitSet::scale_to: only the head (which branch is taken); the compound branch (BTreeMap in dimension(), powi) is cut off and replaced by a marker'],
+    'operator.rs': [SNIP + 'only the numeric arms of + and - and the and / or arms of Operator::eval are extracted'],
+    'range.rs': [SNIP + 'Invalid is a local stand-in with the one constructor the range uses (the real one formats an error text); std::fmt::format stubbed'],
     'cssbuf.rs': ['format::long_indent replaced at CssBuf call sites by its contract (long_indent_by_contract); the contract itself is '
                   'checked by c01_long_indent_contract_sampled for the lengths 81, 82, 128, 160 only (the enumerated 81..=160 variant is a thorough-tier attempt that runs out of memory)'],
     'format.rs': ['format::long_indent replaced in c01_get_indent_contract by its contract; see c01_long_indent_contract_*'],
